@@ -385,7 +385,18 @@ fn svc_oracle(k: &Kern, x: &[Vec<f64>], y: &[f64], c: f64, q: &[Vec<f64>], r: &S
 
 fn make_queries(rng: &mut Rng, x: &[Vec<f64>], extra: usize) -> Vec<Vec<f64>> {
     let p = x[0].len();
-    let ex: Vec<Vec<f64>> = (0..extra).map(|_| (0..p).map(|_| rng.dyadic(4, 2)).collect()).collect();
+    let big = x.iter().flatten().fold(0f64, |m, v| m.max(v.abs()));
+    let ex: Vec<Vec<f64>> = if big > 100.0 {
+        // offset data: extra queries inside the cloud of training rows (x_i + (x_j - x_k)/2), not near the origin
+        (0..extra)
+            .map(|_| {
+                let (i, j, k) = (rng.below(x.len()), rng.below(x.len()), rng.below(x.len()));
+                (0..p).map(|c| x[i][c] + 0.5 * (x[j][c] - x[k][c])).collect()
+            })
+            .collect()
+    } else {
+        (0..extra).map(|_| (0..p).map(|_| rng.dyadic(4, 2)).collect()).collect()
+    };
     let mut all = x.to_vec();
     all.extend(ex);
     all
@@ -642,6 +653,470 @@ fn check_gram(out: &mut Out, k: &Kern, x: &[Vec<f64>]) -> bool {
 }
 
 // ------------------------------------------------------------------------------------------
+// offset families: rows that share a large common offset compared with their spread
+// (timestamps, map coordinates, temperatures in Kelvin). The property does not restrict feature
+// magnitudes, and an evaluation of ||a - b||^2 that does not form the differences first
+// (<a,a> + <b,b> - 2<a,b>) loses everything there while agreeing to 1e-15 on centred data.
+// ------------------------------------------------------------------------------------------
+#[derive(Clone, Copy, Debug, PartialEq)]
+enum Prec {
+    F64,
+    F32,
+}
+impl Prec {
+    /// unit roundoff of the working precision
+    fn u(self) -> f64 {
+        match self {
+            Prec::F64 => f64::EPSILON / 2.0,
+            Prec::F32 => f32::EPSILON as f64 / 2.0,
+        }
+    }
+    /// below this a result is (close to) subnormal and carries no relative accuracy
+    fn tiny(self) -> f64 {
+        match self {
+            Prec::F64 => 1e-300,
+            Prec::F32 => 1e-36,
+        }
+    }
+    fn name(self) -> &'static str {
+        match self {
+            Prec::F64 => "f64",
+            Prec::F32 => "f32",
+        }
+    }
+    fn from_json(v: &Value) -> Prec {
+        if v.as_str() == Some("f32") {
+            Prec::F32
+        } else {
+            Prec::F64
+        }
+    }
+    /// round a parameter / coordinate to the working precision (exactly representable in f64)
+    fn round(self, x: f64) -> f64 {
+        match self {
+            Prec::F64 => x,
+            Prec::F32 => x as f32 as f64,
+        }
+    }
+}
+
+fn two_sum(a: f64, b: f64) -> (f64, f64) {
+    let s = a + b;
+    let bb = s - a;
+    (s, (a - (s - bb)) + (b - bb))
+}
+fn two_prod(a: f64, b: f64) -> (f64, f64) {
+    let p = a * b;
+    (p, a.mul_add(b, -p))
+}
+/// dot product accumulated in twice the binary64 precision (Ogita-Rump-Oishi Dot2), and sum |a_i b_i|
+fn dot2(a: &[f64], b: &[f64]) -> (f64, f64) {
+    let (mut s, mut c, mut sa) = (0.0f64, 0.0f64, 0.0f64);
+    for (x, y) in a.iter().zip(b) {
+        let (p, e) = two_prod(*x, *y);
+        let (t, f) = two_sum(s, p);
+        s = t;
+        c += e + f;
+        sa += p.abs();
+    }
+    (s + c, sa)
+}
+/// ||a - b||^2 with the differences formed first (error-free), squares accumulated in twice the
+/// binary64 precision
+fn sqdist2(a: &[f64], b: &[f64]) -> f64 {
+    let (mut s, mut c) = (0.0f64, 0.0f64);
+    for (x, y) in a.iter().zip(b) {
+        let (d, de) = two_sum(*x, -*y); // d + de = x - y exactly
+        let (p, e) = two_prod(d, d);
+        let (t, f) = two_sum(s, p);
+        s = t;
+        c += e + f + 2.0 * d * de;
+    }
+    s + c
+}
+
+impl Kern {
+    /// the implementation's kernel in the working precision `prec` (operands and parameters are
+    /// representable in that precision)
+    fn apply_prec(&self, a: &[f64], b: &[f64], prec: Prec) -> f64 {
+        match prec {
+            Prec::F64 => self.apply_impl(&a.to_vec(), &b.to_vec()),
+            Prec::F32 => {
+                let a: Vec<f32> = a.iter().map(|v| *v as f32).collect();
+                let b: Vec<f32> = b.iter().map(|v| *v as f32).collect();
+                (match self {
+                    Kern::Linear => Kernels::linear().apply(&a, &b),
+                    Kern::Rbf(g) => Kernels::rbf(*g as f32).apply(&a, &b),
+                    Kern::Poly(d, g, c) => Kernels::polynomial(*d as f32, *g as f32, *c as f32).apply(&a, &b),
+                    Kern::Sigmoid(g, c) => Kernels::sigmoid(*g as f32, *c as f32).apply(&a, &b),
+                }) as f64
+            }
+        }
+    }
+    /// The closed form of the property text evaluated carefully (differences first, sums in twice
+    /// the binary64 precision, no powf / tanh), and what an evaluation of that closed form in the
+    /// working precision (unit roundoff u) may lose:
+    ///   dot product of p terms            |err| <= p u sum|a_i b_i|
+    ///   gamma*dot + coef0                 |err| <= u ((p+1) |gamma| sum|a_i b_i| + |base|)   =: eb
+    ///   base^degree                       rel err <= |degree| eb/|base| + 2u (pow within an ulp)
+    ///   tanh(z)                           |err| <= eb + 2u
+    ///   exp(-gamma sum (a_i-b_i)^2)       rel err <= (p+3) u z + 2u,  z = gamma ||a-b||^2
+    /// The returned tolerance is 4 times that first-order bound. (value, absolute tolerance)
+    fn careful(&self, a: &[f64], b: &[f64], prec: Prec) -> (f64, f64) {
+        let u = prec.u();
+        let p = a.len() as f64;
+        let (dot, sa) = dot2(a, b);
+        match self {
+            Kern::Linear => (dot, 4.0 * p * u * sa),
+            Kern::Rbf(g) => {
+                let z = g * sqdist2(a, b);
+                let e = (-z).exp();
+                (e, 4.0 * ((p + 3.0) * z.abs() + 2.0) * u * e + prec.tiny())
+            }
+            Kern::Poly(d, g, c) => {
+                let base = g * dot + c;
+                let eb = u * ((p + 1.0) * g.abs() * sa + base.abs());
+                let v = if *d == 0.5 {
+                    base.sqrt()
+                } else if *d == 2.5 {
+                    base * base * base.sqrt()
+                } else if d.fract() == 0.0 && d.abs() < 64.0 {
+                    base.powi(*d as i32)
+                } else {
+                    base.powf(*d)
+                };
+                (v, 4.0 * (d.abs() * eb / base.abs() + 2.0 * u) * v.abs() + prec.tiny())
+            }
+            Kern::Sigmoid(g, c) => {
+                let z = g * dot + c;
+                let eb = u * ((p + 1.0) * g.abs() * sa + z.abs());
+                let m = (2.0 * z).exp_m1();
+                let v = if m.is_infinite() { 1.0 } else { m / (m + 2.0) };
+                (v, 4.0 * (eb + 2.0 * u))
+            }
+        }
+    }
+}
+
+/// measured accuracy of the implementation on the offset families: per "<prec>:<kernel>" the
+/// largest relative error and the largest fraction of the tolerance that was used
+#[derive(Default)]
+struct Acc(std::collections::BTreeMap<String, (f64, f64, u64)>);
+impl Acc {
+    fn note(&mut self, key: String, rel: f64, frac: f64) {
+        let e = self.0.entry(key).or_insert((0.0, 0.0, 0));
+        if rel.is_finite() {
+            e.0 = e.0.max(rel);
+        }
+        if frac.is_finite() {
+            e.1 = e.1.max(frac);
+        }
+        e.2 += 1;
+    }
+    fn to_json(&self) -> Value {
+        Value::Object(self.0.iter().map(|(k, v)| (k.clone(), json!({"max_relative_error": v.0, "max_fraction_of_tolerance": v.1, "cases": v.2}))).collect())
+    }
+}
+
+/// per-coordinate offsets and the spread of one offset data set; `ratio` = offset / spread
+#[derive(Clone, Debug)]
+struct OffsetFrame {
+    offs: Vec<f64>,
+    spread: f64,
+    ratio: f64,
+    family: &'static str,
+}
+
+fn offset_frame(rng: &mut Rng, p: usize, prec: Prec) -> OffsetFrame {
+    let named = rng.below(6);
+    if prec == Prec::F64 && named == 0 && p <= 2 {
+        // UNIX timestamps in seconds, events seconds to minutes apart (second feature: hour of day)
+        let spread = *rng.pick(&[5.0, 60.0, 600.0]);
+        let mut offs = vec![1.6e9 + (rng.below(100_000_000) as f64)];
+        if p == 2 {
+            offs.push(12.0 * spread);
+        }
+        return OffsetFrame { offs, spread, ratio: 1.6e9 / spread, family: "timestamps" };
+    }
+    if prec == Prec::F64 && named == 1 && p == 2 {
+        // projected map coordinates in metres, points centimetres to metres apart
+        let spread = *rng.pick(&[0.05, 0.5, 2.0]);
+        let offs = vec![512_340.0 + rng.below(1000) as f64, 5_403_871.0 + rng.below(1000) as f64];
+        return OffsetFrame { offs, spread, ratio: 5.4e6 / spread, family: "map-coordinates" };
+    }
+    if prec == Prec::F32 && named <= 1 {
+        // temperatures in Kelvin
+        let spread = *rng.pick(&[0.1, 0.5, 2.0]);
+        let offs: Vec<f64> = (0..p).map(|_| 273.0 + rng.below(40) as f64).collect();
+        return OffsetFrame { offs, spread, ratio: 300.0 / spread, family: "kelvin" };
+    }
+    let ratio = match prec {
+        Prec::F64 => *rng.pick(&[1e3, 1e4, 1e5, 1e6, 1e7, 1e8, 1e9]),
+        Prec::F32 => *rng.pick(&[1e3, 3e3, 1e4]),
+    };
+    let spread = *rng.pick(&[1.0, 1.0, 0.125, 60.0, 1e-3]);
+    let offs: Vec<f64> = match rng.below(4) {
+        // one common offset
+        0 => vec![ratio * spread; p],
+        // all on one side, different per coordinate
+        1 | 2 => (0..p).map(|_| ratio * spread * rng.uniform(0.5, 2.0)).collect(),
+        // mixed signs
+        _ => (0..p).map(|_| ratio * spread * rng.uniform(0.5, 2.0) * if rng.bool() { 1.0 } else { -1.0 }).collect(),
+    };
+    OffsetFrame { offs, spread, ratio, family: "ratio" }
+}
+
+impl OffsetFrame {
+    /// a centred row (coordinates of order 1) placed in the frame
+    fn place(&self, centred: &[f64], prec: Prec) -> Vec<f64> {
+        centred.iter().zip(&self.offs).map(|(c, o)| prec.round(o + self.spread * c)).collect()
+    }
+    fn bucket(&self) -> String {
+        if self.family == "ratio" {
+            format!("ratio=1e{}", self.ratio.log10().round() as i32)
+        } else {
+            self.family.to_string()
+        }
+    }
+    /// kernel parameters that make the kernel non-degenerate on this frame (gamma ||a-b||^2 and
+    /// gamma <a,b> of order 1); some polynomial / sigmoid kernels keep plain parameters
+    fn kernel(&self, rng: &mut Rng, which: usize, p: usize, prec: Prec) -> Kern {
+        let o2: f64 = self.offs.iter().map(|o| o * o).sum::<f64>().max(1e-300);
+        let _ = p;
+        match which {
+            0 => Kern::Linear,
+            1 => Kern::Rbf(prec.round(rng.uniform(0.01, 3.0) / (self.spread * self.spread))),
+            2 => {
+                let d = *rng.pick(&[1.0, 2.0, 3.0, 4.0, 0.5, 2.5]);
+                let plain = prec == Prec::F64 && rng.chance(0.3);
+                let g = if plain { rng.uniform(0.1, 1.5) } else { rng.uniform(0.1, 1.5) / o2 };
+                Kern::Poly(d, prec.round(g), *rng.pick(&[0.0, 0.5, 1.0]))
+            }
+            _ => Kern::Sigmoid(prec.round(rng.uniform(0.05, 2.0) / o2), prec.round(rng.uniform(-1.0, 1.0))),
+        }
+    }
+}
+
+fn kernel_offset_input(k: &Kern, a: &[f64], b: &[f64], prec: Prec) -> Value {
+    json!({"entry": "kernel_offset", "kernel": k.to_json(), "a": a, "b": b, "prec": prec.name()})
+}
+
+/// the kernel clauses on one pair: symmetry, closed form (against the careful reference, tolerance =
+/// 4 x the rounding error bound of the closed form evaluated in the working precision), K(a,a) and
+/// K(b,b) likewise, and for the positive semi-definite kernels the 2x2 principal minor.
+/// Returns (oracle, what) of the first clause that fails; notes the accuracy into `acc`.
+fn kernel_offset_verdict(k: &Kern, a: &[f64], b: &[f64], prec: Prec, acc: Option<&mut Acc>) -> Option<(String, String)> {
+    let r = guard(|| (k.apply_prec(a, b, prec), k.apply_prec(b, a, prec), k.apply_prec(a, a, prec), k.apply_prec(b, b, prec)));
+    let (v, vs, vaa, vbb) = match r {
+        Err(m) => return Some(("kernel_no_panic".into(), m)),
+        Ok(t) => t,
+    };
+    if v.to_bits() != vs.to_bits() && !(v.is_nan() && vs.is_nan()) {
+        return Some(("kernel_symmetric".into(), format!("K(a,b) = {:e} but K(b,a) = {:e}", v, vs)));
+    }
+    let mut worst: (f64, f64) = (0.0, 0.0);
+    for (x, y, got, name) in [(a, b, v, "K(a,b)"), (a, a, vaa, "K(a,a)"), (b, b, vbb, "K(b,b)")] {
+        let (e, tol) = k.careful(x, y, prec);
+        if !e.is_finite() || !tol.is_finite() {
+            // overflow of the closed form itself: the implementation must overflow the same way
+            if got.is_finite() && e.is_infinite() && prec == Prec::F64 {
+                return Some(("kernel_closed_form".into(), format!("{} = {:e}, closed form = {:e}", name, got, e)));
+            }
+            continue;
+        }
+        if prec == Prec::F32 && (e.abs() > 1e37 || !got.is_finite()) {
+            continue; // at the edge of the f32 range
+        }
+        let err = (got - e).abs();
+        if !(err <= tol) {
+            return Some((
+                "kernel_closed_form".into(),
+                format!("{} = {:e}, closed form (differences first, compensated sums) = {:e}: relative error {:.3e}, allowed {:.3e} ({}, {} features)", name, got, e, err / e.abs().max(1e-300), tol / e.abs().max(1e-300), prec.name(), x.len()),
+            ));
+        }
+        worst.0 = worst.0.max(err / e.abs().max(prec.tiny()));
+        worst.1 = worst.1.max(err / tol);
+    }
+    if let Some(acc) = acc {
+        acc.note(format!("{}:{}", prec.name(), k.name()), worst.0, worst.1);
+    }
+    // 2x2 principal minor of the Gram matrix of {a, b}
+    if matches!(k, Kern::Linear | Kern::Rbf(_)) && v.is_finite() && vaa.is_finite() && vbb.is_finite() {
+        let u = prec.u();
+        let p = a.len() as f64;
+        let slack = match k {
+            Kern::Rbf(_) => 16.0 * u,
+            // Cauchy-Schwarz for computed dot products: each within p u sum|.| of its exact value
+            _ => {
+                let (_, sab) = dot2(a, b);
+                8.0 * (p + 2.0) * u * (sab * sab + vaa * vbb)
+            }
+        };
+        if !(v * v <= vaa * vbb + slack) || !(vaa >= 0.0) || !(vbb >= 0.0) {
+            return Some((
+                "gram_psd".into(),
+                format!("2x2 Gram matrix [[{:e}, {:e}], [{:e}, {:e}]] of {} kernel is not positive semi-definite: (e_a - e_b)^T G (e_a - e_b) = {:e}, det = {:e}", vaa, v, v, vbb, k.name(), vaa + vbb - 2.0 * v, vaa * vbb - v * v),
+            ));
+        }
+    }
+    None
+}
+
+fn check_kernel_offset(out: &mut Out, k: &Kern, a: &[f64], b: &[f64], prec: Prec, frame: &str, acc: &mut Acc) -> bool {
+    let mut key = a.to_vec();
+    key.extend(b);
+    out.eval(hash_f64s(&key) ^ hash_of(&format!("{:?}{:?}", k, prec)), a != b);
+    out.count(&format!("search:kernel-offset:{}:{}", prec.name(), k.name()));
+    out.count(&format!("search:kernel-offset:{}:{}", prec.name(), frame));
+    if a == b {
+        out.count("search:kernel-offset:K(x,x)");
+    }
+    match kernel_offset_verdict(k, a, b, prec, Some(acc)) {
+        None => true,
+        Some((oracle, what)) => {
+            // shrink: drop coordinates while the same clause still fails
+            let (mut a, mut b, mut what) = (a.to_vec(), b.to_vec(), what);
+            let mut j = 0;
+            while a.len() > 1 && j < a.len() {
+                let (mut a2, mut b2) = (a.clone(), b.clone());
+                a2.remove(j);
+                b2.remove(j);
+                match kernel_offset_verdict(k, &a2, &b2, prec, None) {
+                    Some((o2, w2)) if o2 == oracle => {
+                        a = a2;
+                        b = b2;
+                        what = w2;
+                    }
+                    _ => j += 1,
+                }
+            }
+            out.fail(&oracle, &what, kernel_offset_input(k, &a, &b, prec));
+            false
+        }
+    }
+}
+
+/// Gram matrix of the implementation's kernel on offset rows: symmetric, and positive
+/// semi-definite up to the rounding of its entries.
+/// RBF: every computed entry is within 6u of its exact value (rel err ((p+3) z + 2) u, z e^-z <= 1/e,
+/// p <= 8), so lambda_min >= -6 n u; the Jacobi sweep adds O(n u ||G||). Tolerance: 4 x the entry
+/// bound + 64 n eps ||G||. Quadratic forms at e_i - e_j and at sign vectors likewise.
+/// Linear: relative to the largest eigenvalue, as in `check_gram`.
+fn gram_offset_verdict(k: &Kern, x: &[Vec<f64>], prec: Prec, most_negative: Option<&mut f64>) -> Option<(String, String)> {
+    let n = x.len();
+    let g = match guard(|| x.iter().map(|a| x.iter().map(|b| k.apply_prec(a, b, prec)).collect::<Vec<f64>>()).collect::<Vec<Vec<f64>>>()) {
+        Err(m) => return Some(("kernel_no_panic".into(), m)),
+        Ok(g) => g,
+    };
+    for i in 0..n {
+        for j in 0..i {
+            if g[i][j].to_bits() != g[j][i].to_bits() {
+                return Some(("kernel_symmetric".into(), format!("K(x_{},x_{}) = {:e} but K(x_{},x_{}) = {:e}", i, j, g[i][j], j, i, g[j][i])));
+            }
+        }
+    }
+    if g.iter().flatten().any(|v| !v.is_finite()) {
+        return None;
+    }
+    let u = prec.u();
+    let nf = n as f64;
+    let ev = jacobi_eigenvalues(&g);
+    let mx = ev.iter().fold(0f64, |m, v| m.max(v.abs()));
+    let mn = ev.iter().fold(f64::INFINITY, |m, v| m.min(*v));
+    let rbf = matches!(k, Kern::Rbf(_));
+    let (tol_eig, tol_form) = if rbf {
+        (nf * 24.0 * u + 64.0 * nf * f64::EPSILON * mx, nf * nf * 24.0 * u)
+    } else {
+        let p = x[0].len() as f64;
+        let t = 8.0 * (p + 2.0) * u * nf * mx.max(1e-300) + 64.0 * nf * f64::EPSILON * mx;
+        (t, t * nf)
+    };
+    if let Some(m) = most_negative {
+        if mn / tol_eig < *m {
+            *m = mn / tol_eig;
+        }
+    }
+    if !(mn >= -tol_eig) {
+        return Some(("gram_psd".into(), format!("Gram matrix of {} rows ({} kernel, {}) has eigenvalue {:e} (largest magnitude {:e}, allowed -{:.2e})", n, k.name(), prec.name(), mn, mx, tol_eig)));
+    }
+    // quadratic forms: e_i - e_j, and sign vectors (all of them up to 8 rows, else 128 derived from the data)
+    for i in 0..n {
+        for j in 0..i {
+            let q = g[i][i] + g[j][j] - 2.0 * g[i][j];
+            let t = if rbf { 16.0 * u } else { tol_form };
+            if !(q >= -t) {
+                return Some(("gram_psd".into(), format!("(e_{} - e_{})^T G (e_{} - e_{}) = {:e} < 0 ({} kernel, {}): K_ij = {:e}, K_ii = {:e}, K_jj = {:e}", i, j, i, j, q, k.name(), prec.name(), g[i][j], g[i][i], g[j][j])));
+            }
+        }
+    }
+    let key: Vec<f64> = x.iter().flatten().cloned().collect();
+    let mut srng = Rng::new(hash_f64s(&key));
+    let nvec = if n <= 8 { 1usize << n } else { 128 };
+    for m in 0..nvec {
+        let s: Vec<f64> = (0..n).map(|i| if n <= 8 { if (m >> i) & 1 == 1 { -1.0 } else { 1.0 } } else if srng.bool() { -1.0 } else { 1.0 }).collect();
+        let mut q = 0.0;
+        for i in 0..n {
+            for j in 0..n {
+                q += s[i] * s[j] * g[i][j];
+            }
+        }
+        if !(q >= -tol_form) {
+            return Some(("gram_psd".into(), format!("s^T G s = {:e} < 0 for the sign vector s = {:?} ({} kernel, {})", q, s, k.name(), prec.name())));
+        }
+    }
+    None
+}
+
+fn check_gram_offset(out: &mut Out, k: &Kern, x: &[Vec<f64>], prec: Prec, frame: &str, most_negative: &mut f64) -> bool {
+    let key: Vec<f64> = x.iter().flatten().cloned().collect();
+    let distinct = (0..x.len()).all(|i| (0..i).all(|j| x[i] != x[j]));
+    out.eval(hash_f64s(&key) ^ hash_of(&format!("gram-offset{:?}{:?}", k, prec)), x.len() >= 3 && distinct);
+    out.count(&format!("search:gram-offset:{}:{}", prec.name(), k.name()));
+    out.count(&format!("search:gram-offset:{}:{}", prec.name(), frame));
+    match gram_offset_verdict(k, x, prec, Some(most_negative)) {
+        None => true,
+        Some((oracle, what)) => {
+            // shrink: drop rows while the same clause still fails
+            let (mut x, mut what) = (x.to_vec(), what);
+            let mut i = 0;
+            while x.len() > 2 && i < x.len() {
+                let mut x2 = x.clone();
+                x2.remove(i);
+                match gram_offset_verdict(k, &x2, prec, None) {
+                    Some((o2, w2)) if o2 == oracle => {
+                        x = x2;
+                        what = w2;
+                    }
+                    _ => i += 1,
+                }
+            }
+            out.fail(&oracle, &what, json!({"entry": "gram_offset", "kernel": k.to_json(), "x": x, "prec": prec.name()}));
+            false
+        }
+    }
+}
+
+/// centred rows (coordinates of order 1) for a Gram matrix: scattered, or a sorted 1-d series of
+/// events with a few near-coincident ones (nearly singular Gram matrices are the sensitive ones)
+fn centred_rows(rng: &mut Rng, n: usize, p: usize) -> Vec<Vec<f64>> {
+    if p <= 2 && rng.bool() {
+        let mut t = 0.0;
+        (0..n)
+            .map(|_| {
+                t += *rng.pick(&[0.02, 0.1, 0.25, 0.5, 1.0, 1.5]);
+                let mut r = vec![t - 2.0];
+                if p == 2 {
+                    r.push(rng.uniform(-1.0, 1.0));
+                }
+                r
+            })
+            .collect()
+    } else {
+        (0..n).map(|_| (0..p).map(|_| rng.uniform(-2.0, 2.0)).collect()).collect()
+    }
+}
+
+// ------------------------------------------------------------------------------------------
 // correspondence terms
 // ------------------------------------------------------------------------------------------
 fn coq_srec(v: &svc::verif::SvRec) -> String {
@@ -845,6 +1320,22 @@ fn corr_kernel(out: &mut Out, k: &Kern, a: &Vec<f64>, b: &Vec<f64>) {
     }
 }
 
+/// kernels on offset rows: linear bit for bit, the others within 1e-11 relative (software exp / ln in the
+/// binary64 instance of the model; the exponent gamma*||a-b||^2 itself is formed exactly as in the code)
+fn corr_kernel_offset(out: &mut Out, k: &Kern, a: &Vec<f64>, b: &Vec<f64>) {
+    if let Ok((v, vs)) = guard(|| (k.apply_impl(a, b), k.apply_impl(b, a))) {
+        if !v.is_finite() || (v != 0.0 && v.abs() < 1e-290) {
+            return;
+        }
+        out.corr(
+            "kernel_offset",
+            // tanh near 0 is (e-1)/(e+1) in the model: absolute accuracy only
+            format!("corr_kernel_tol {} {} {} {} {} {} {}", k.coq(), coq_list_f64(a), coq_list_f64(b), coq_f64(v), coq_f64(vs), coq_f64(1e-11), coq_f64(if matches!(k, Kern::Sigmoid(..)) { 1e-13 } else { 1e-300 })),
+            kernel_offset_input(k, a, b, Prec::F64),
+        );
+    }
+}
+
 // ------------------------------------------------------------------------------------------
 fn replay(path: &str) -> i32 {
     let v = read_replay(path);
@@ -870,6 +1361,14 @@ fn replay(path: &str) -> i32 {
         }
         "gram" => {
             check_gram(&mut out, &k, &rows_from_json(&inp["x"]));
+        }
+        "kernel_offset" => {
+            let mut acc = Acc::default();
+            check_kernel_offset(&mut out, &k, &f64s_from_json(&inp["a"]), &f64s_from_json(&inp["b"]), Prec::from_json(&inp["prec"]), "replay", &mut acc);
+        }
+        "gram_offset" => {
+            let mut m = 0.0;
+            check_gram_offset(&mut out, &k, &rows_from_json(&inp["x"]), Prec::from_json(&inp["prec"]), "replay", &mut m);
         }
         _ => {
             eprintln!("unknown replay entry");
@@ -1051,5 +1550,127 @@ fn main() {
         let k = if i % 2 == 0 { Kern::Linear } else { Kern::Rbf(rng.uniform(0.05, 2.0)) };
         check_gram(&mut out, &k, &x);
     }
+
+    // ---- offset families (rows = large common offset + small spread), own stream derived from the seed ----
+    let mut orng = Rng::new(a.seed ^ 0x0ff5_e7c1_0c10);
+    let mut acc = Acc::default();
+    // search: the four kernels against the careful closed form, symmetry, K(x,x), 2x2 minors
+    for prec in [Prec::F64, Prec::F32] {
+        let cases = match (prec, t) {
+            (Prec::F64, false) => 4000,
+            (Prec::F64, true) => 30000,
+            (Prec::F32, false) => 1500,
+            (Prec::F32, true) => 10000,
+        };
+        for i in 0..cases {
+            let p = orng.usize_in(1, 6);
+            let fr = offset_frame(&mut orng, p, prec);
+            let k = fr.kernel(&mut orng, i % 4, p, prec);
+            let ca: Vec<f64> = (0..p).map(|_| orng.normal()).collect();
+            let va = fr.place(&ca, prec);
+            let vb = if orng.chance(0.1) {
+                va.clone()
+            } else if orng.chance(0.15) {
+                // a close neighbour: one coordinate moved by a small fraction of the spread
+                let mut c = ca.clone();
+                let j = orng.below(p);
+                c[j] += *orng.pick(&[0.01, 0.05, 0.25]);
+                fr.place(&c, prec)
+            } else {
+                let cb: Vec<f64> = (0..p).map(|_| orng.normal()).collect();
+                fr.place(&cb, prec)
+            };
+            let ok = check_kernel_offset(&mut out, &k, &va, &vb, prec, &fr.bucket(), &mut acc);
+            if ok && i < 1 {
+                out.sample(json!({"kernel_offset": {"prec": prec.name(), "kernel": k.to_json(), "a": va, "b": vb, "offset/spread": fr.ratio}}));
+            }
+        }
+    }
+    out.set("offset_kernel_accuracy", acc.to_json());
+    // search: Gram matrices on offset rows
+    let mut most_negative = 0.0f64;
+    for prec in [Prec::F64, Prec::F32] {
+        let cases = match (prec, t) {
+            (Prec::F64, false) => 400,
+            (Prec::F64, true) => 3000,
+            (Prec::F32, false) => 150,
+            (Prec::F32, true) => 1000,
+        };
+        for i in 0..cases {
+            let n = orng.usize_in(2, if t { 16 } else { 12 });
+            let p = orng.usize_in(1, 4);
+            let fr = offset_frame(&mut orng, p, prec);
+            let k = if i % 4 == 0 { Kern::Linear } else { fr.kernel(&mut orng, 1, p, prec) };
+            let x: Vec<Vec<f64>> = centred_rows(&mut orng, n, p).iter().map(|r| fr.place(r, prec)).collect();
+            check_gram_offset(&mut out, &k, &x, prec, &fr.bucket(), &mut most_negative);
+        }
+    }
+    out.set("offset_gram_most_negative_eigenvalue_over_tolerance", json!(most_negative));
+    // search: SVC / SVR fits on offset data (RBF kernel: shift-invariant, so the fit is as well-posed as on centred data)
+    for i in 0..(if t { 1500 } else { 160 }) {
+        let n = orng.usize_in(4, if i % 5 == 0 { 40 } else { 16 });
+        let p = orng.usize_in(1, 4);
+        let fr = offset_frame(&mut orng, p, Prec::F64);
+        let lp = label_pair(&mut orng);
+        let (cx, y) = gen_classification(&mut orng, n, p, i % 7 == 0, i % 2 == 0, lp);
+        let x: Vec<Vec<f64>> = cx.iter().map(|r| fr.place(r, Prec::F64)).collect();
+        let k = Kern::Rbf(*orng.pick(&[0.05, 0.25, 0.5, 1.0, 2.0]) / (fr.spread * fr.spread));
+        let k = if std::env::var("C10X").is_ok() { if i % 2 == 0 { Kern::Linear } else { fr.kernel(&mut orng, 2, p, Prec::F64) } } else { k };
+        let c = *orng.pick(&cs);
+        let (ep, tl) = (orng.usize_in(1, 3), *orng.pick(&tols));
+        check_svc(&mut out, &mut orng, &k, &x, &y, c, ep, tl, 2, &format!("offset:{}", fr.bucket()));
+    }
+    for i in 0..(if t { 1500 } else { 160 }) {
+        let n = orng.usize_in(4, if i % 5 == 0 { 40 } else { 16 });
+        let p = orng.usize_in(1, 4);
+        let fr = offset_frame(&mut orng, p, Prec::F64);
+        let (cx, y) = gen_regression(&mut orng, n, p, i % 7 == 0);
+        let x: Vec<Vec<f64>> = cx.iter().map(|r| fr.place(r, Prec::F64)).collect();
+        if (0..x.len()).any(|i| (0..i).any(|j| x[i] == x[j])) {
+            out.count("search:svr:offset:excluded(rows coincide after rounding)");
+            continue;
+        }
+        let k = Kern::Rbf(*orng.pick(&[0.1, 0.5, 1.0]) / (fr.spread * fr.spread));
+        let k = if std::env::var("C10X").is_ok() { if i % 2 == 0 { Kern::Linear } else { Kern::Poly(*orng.pick(&[1.0,2.0,3.0]), 1.0 / fr.offs.iter().map(|o| o * o).sum::<f64>(), 1.0) } } else { k };
+        let c = *orng.pick(&cs);
+        let eps = *orng.pick(&[0.0, 0.05, 0.1, 0.3, 0.5]);
+        let tl = *orng.pick(&tols);
+        check_svr(&mut out, &k, &x, &y, eps, c, tl, &format!("offset:{}", fr.bucket()), &mut worst);
+    }
+    // correspondence: the kernel model (differences first, like the code) against the implementation on offset rows
+    for i in 0..(if t { 240 } else { 64 }) {
+        let p = orng.usize_in(1, 4);
+        let fr = offset_frame(&mut orng, p, Prec::F64);
+        let k = fr.kernel(&mut orng, i % 4, p, Prec::F64);
+        let ca: Vec<f64> = (0..p).map(|_| orng.normal()).collect();
+        let cb: Vec<f64> = (0..p).map(|_| orng.normal()).collect();
+        corr_kernel_offset(&mut out, &k, &fr.place(&ca, Prec::F64), &fr.place(&cb, Prec::F64));
+    }
+    // the seeded examples: timestamps a few seconds apart, map coordinates centimetres apart
+    corr_kernel_offset(&mut out, &Kern::Rbf(1.0 / 7200.0), &vec![1.6e9 + 140.0], &vec![1.6e9 + 141.5]);
+    corr_kernel_offset(&mut out, &Kern::Rbf(1.0), &vec![512_340.10, 5_403_871.25], &vec![512_340.13, 5_403_871.27]);
+    // correspondence: fits on offset data (optimizer replays on the implementation's Gram table, fitted model
+    // against the expansion with the model's own kernel formula)
+    for i in 0..(if t { 40 } else { 10 }) {
+        let n = orng.usize_in(4, 7);
+        let p = orng.usize_in(1, 3);
+        let fr = offset_frame(&mut orng, p, Prec::F64);
+        let g = *orng.pick(&[0.25, 0.5, 1.0]) / (fr.spread * fr.spread);
+        if i % 2 == 0 {
+            let (sep, lp) = (orng.bool(), label_pair(&mut orng));
+            let (cx, y) = gen_classification(&mut orng, n, p, true, sep, lp);
+            let x: Vec<Vec<f64>> = cx.iter().map(|r| fr.place(r, Prec::F64)).collect();
+            let c = *orng.pick(&[0.5, 1.0, 10.0]);
+            corr_svc(&mut out, &mut orng, &Kern::Rbf(g), &x, &y, c, 1, 1e-3);
+        } else {
+            let (cx, y) = gen_regression(&mut orng, n, p, true);
+            let x: Vec<Vec<f64>> = cx.iter().map(|r| fr.place(r, Prec::F64)).collect();
+            if (0..x.len()).any(|i| (0..i).any(|j| x[i] == x[j])) {
+                continue;
+            }
+            corr_svr(&mut out, &Kern::Rbf(g), &x, &y, *orng.pick(&[0.0, 0.125, 0.25]), *orng.pick(&[0.5, 1.0, 10.0]), 1e-3);
+        }
+    }
+    out.set("svr_worst_kkt_excess_over_half_tol", json!(worst));
     out.finish(&a.out);
 }
